@@ -144,7 +144,7 @@ def run(ctx):
         return [O.LAUNCH_MODES[k % 5]] + ([('Serial', 'OpenMP')[k % 2]] if k % 3 == 0 else [])
     wv = [dict(N=3, a=1, b=1, c=1, s=1), dict(N=1, a=3, b=1, c=1, s=1), dict(N=0, a=0, b=0, c=0, s=1), dict(N=2, a=1, b=2, c=1, s=2),
           dict(N=1, a=2, b=1, c=2, s=1), dict(N=4, a=2, b=1, c=0, s=1), dict(N=2, a=0, b=3, c=2, s=2), dict(N=-1, a=-2, b=-1, c=1, s=1)]
-    qs, rejected = O.make_queries(ctx, progs, modes, O.visit_harness, known_keys=list(known), timeout=300 if thorough else 120, witness_vectors=wv, modes_of=modes_of)
+    qs, rejected = O.make_queries(ctx, progs, modes, O.visit_harness, known_keys=list(known), timeout=900 if thorough else 600, witness_vectors=wv, modes_of=modes_of)
     # re-confirm each listed finding on its designated program (still reproduces -> KNOWN-FINDING line)
     if not ctx.only:
         qs += O.known_reconfirm(ctx, progs, known, O.visit_harness)
